@@ -31,6 +31,10 @@ theorem lcP_mono (init cond next : Option Node) (b b' : Node)
     (hs : varsP b' ⊆ varsP b) (h : (lcP init cond next b).1 = true) :
     lcP init cond next b' = lcP init cond next b := by
   unfold lcP at *
+  split at h
+  · cases h
+  rename_i he
+  simp only [he]
   rw [loopCompatOf_eq] at h ⊢
   rw [loopCompatOf_eq]
   split at h
@@ -107,7 +111,10 @@ theorem covN_vars : (n : Node) → ∀ c, covN n = .ok c → varsP c.mod ⊆ var
     simpa only [varsP] using covList_vars l a.1 a.2 ha
   | .while_ _ b | .doWhile _ b => by
     intro c h
-    simp only [covN, bind_eq_ok, pure_eq_ok, Except.ok.injEq] at h
+    simp only [covN] at h
+    split at h
+    · simp only [pure_eq_ok, Except.ok.injEq] at h; subst h; exact List.Subset.refl _
+    simp only [bind_eq_ok, pure_eq_ok, Except.ok.injEq] at h
     obtain ⟨a, ha, rfl⟩ := h
     simp only [varsP]
     exact app_sub (List.Subset.refl _) (covBody_vars b a.1 a.2 ha)
@@ -119,14 +126,15 @@ theorem covN_vars : (n : Node) → ∀ c, covN n = .ok c → varsP c.mod ⊆ var
       simp only [bind_eq_ok, Except.ok.injEq] at h
       obtain ⟨a, ha, rfl⟩ := h
       have hs := covBody_vars b a.1 a.2 ha
-      have := lcP_mono init cond next b a.2 hs hl
-      unfold lcP at this
-      simp only [varsP, this]
+      rw [varsP_for, varsP_for, lcP_mono init cond next b a.2 hs hl]
       exact app_sub (List.Subset.refl _) hs
     · cases h; exact List.Subset.refl _
   | .ifs _ t f => by
     intro c h
-    simp only [covN, bind_eq_ok, pure_eq_ok, Except.ok.injEq] at h
+    simp only [covN] at h
+    split at h
+    · simp only [pure_eq_ok, Except.ok.injEq] at h; subst h; exact List.Subset.refl _
+    simp only [bind_eq_ok, pure_eq_ok, Except.ok.injEq] at h
     obtain ⟨a, ha, b, hb, rfl⟩ := h
     simp only [varsP]
     exact app_sub (covSlot_vars t a.1 a.2 ha) (covSlot_vars f b.1 b.2 hb)
@@ -366,10 +374,15 @@ theorem covN_mod_full :
     obtain ⟨a, ha, rfl⟩ := h
     simp only [covN, covList_mod_full l a.1 a.2 ha, ok_bind, pure_eq_ok]
   | .while_ _ b | .doWhile _ b => by
-    intro c h _
-    simp only [covN, bind_eq_ok, pure_eq_ok, Except.ok.injEq] at h
+    intro c h hu
+    simp only [covN] at h
+    split at h
+    · simp only [pure_eq_ok, Except.ok.injEq] at h; subst h; cases hu
+    rename_i hc
+    simp only [bind_eq_ok, pure_eq_ok, Except.ok.injEq] at h
     obtain ⟨a, ha, rfl⟩ := h
-    simp only [covN, covBody_mod_full b a.1 a.2 ha, ok_bind, pure_eq_ok]
+    simp only [covN, hc, covBody_mod_full b a.1 a.2 ha, ok_bind, pure_eq_ok]
+    rfl
   | .for_ init cond next b => by
     intro c h hu
     rw [covN_for] at h
@@ -382,11 +395,16 @@ theorem covN_mod_full :
         covBody_mod_full b a.1 a.2 ha, ok_bind]
     · cases h; cases hu
   | .ifs _ t f => by
-    intro c h _
-    simp only [covN, bind_eq_ok, pure_eq_ok, Except.ok.injEq] at h
+    intro c h hu
+    simp only [covN] at h
+    split at h
+    · simp only [pure_eq_ok, Except.ok.injEq] at h; subst h; cases hu
+    rename_i hc
+    simp only [bind_eq_ok, pure_eq_ok, Except.ok.injEq] at h
     obtain ⟨a, ha, b, hb, rfl⟩ := h
-    simp only [covN, covSlot_mod_full t a.1 a.2 ha, covSlot_mod_full f b.1 b.2 hb, ok_bind,
-      pure_eq_ok]
+    simp only [covN, hc, covSlot_mod_full t a.1 a.2 ha, covSlot_mod_full f b.1 b.2 hb,
+      ok_bind, pure_eq_ok]
+    rfl
   | .funcDef d b => by
     intro c h _
     cases d with
